@@ -84,7 +84,7 @@ def replay(rec, ctx):
     if w == "PeriodicToken":
         p = c["p"] / D
         x = {"neg_tiny": -1e-20, "neg_zero": -0.0, "huge": 1e300, "neg_huge": -1e300, "exact_multiple": 3 * p,
-             "neg_exact_multiple": -4 * p, "just_below_period": math.nextafter(p, 0.0)}[c["token"]]
+             "neg_exact_multiple": -4 * p, "just_below_period": math.nextafter(p, 0.0), "generic": 12.3456789, "neg_generic": -987.654321}[c["token"]]
         for name, nargs in (("PeriodicTransform1D", 1), ("PeriodicTransform2D", 2), ("PeriodicTransform3D", 3)):
             r = Rec()
             f = _cls(name)(r, *([p] * nargs))
